@@ -801,6 +801,30 @@ def faults_script(g):
             ops.append(r.choice([dict(op="get", client="c", table="t", key=k), dict(op="put", client="c", table="t", item=k),
                                  dict(op="delete", client="c", table="t", key=k),
                                  dict(op="update", client="c", table="t", key=k, expr="SET v = :v", names={}, values={":v": S("x")})]))
+        if r.random() < 0.5:
+            # while the failure is on, requests that would be refused for a reason of their own (a table that does not exist, an
+            # unused or undefined placeholder, a reserved word, a malformed key or start key): the failure is what they answer
+            kk = g.key_of(t["schema"])
+            defects = [dict(table="nope"), dict(names={"#zz": "g"}), dict(projection="#undef"), dict(projection="size"), dict(badkey=True), dict(esk={"zz": S("q")})]
+            for _ in range(r.randrange(1, 4)):
+                d = dict(r.choice(defects))
+                kind = r.choice(["get", "put", "delete", "update", "query", "scan", "batch_get", "batch_write"])
+                tbl = d.pop("table", "tbl")
+                key = {"zz": S("nokey")} if d.pop("badkey", False) else kk
+                if kind == "get": op = dict(op="get", client="c", table=tbl, key=key)
+                elif kind == "put": op = dict(op="put", client="c", table=tbl, item=key, cond="attribute_exists(h)", names={}, values={})
+                elif kind == "delete": op = dict(op="delete", client="c", table=tbl, key=key, cond="attribute_exists(h)", names={}, values={})
+                elif kind == "update": op = dict(op="update", client="c", table=tbl, key=key, expr="SET v = :v", names={}, values={":v": S("x")})
+                elif kind == "query": op = dict(op="query", client="c", table=tbl, keycond="h = :h", names={}, values={":h": S("a")})
+                elif kind == "scan": op = dict(op="scan", client="c", table=tbl, names={}, values={})
+                elif kind == "batch_get": op = dict(op="batch_get", client="c", requests={tbl: [key]})
+                else: op = dict(op="batch_write", client="c", requests={tbl: [dict(put=key)]})
+                if kind in ("get", "query", "scan") and "projection" in d: op["projection"] = d["projection"]
+                if kind == "batch_get" and "projection" in d: op["opts"] = {tbl: dict(names={}, projection=d["projection"])}
+                if "names" in d and "names" in op: op["names"] = dict(d["names"])
+                if "names" in d and kind == "get": op["names"] = dict(d["names"])
+                if "esk" in d and kind in ("query", "scan"): op["esk"] = d["esk"]
+                ops.append(op)
         if r.random() < 0.25:
             # batches that name no table, or no request / key for their table, while the failure is active
             ops.append(r.choice([dict(op="batch_get", client="c", requests={}), dict(op="batch_get", client="c", requests={"tbl": []}),
